@@ -106,6 +106,10 @@ UClasses ==
                EXCEPT !.smethods = << SM("m1", "m1", TInt, DInt(5)), SM("m2", "mm", TOpt(TInt), DNull),
                                       SM("m3", "m3", TUnion(<<TStr, TUndef>>), VUndef),
                                       SM("m4", "m4", TColl("list", TInt), VList(<<DInt(1)>>)) >>],
+   \* a subclass declares ANOTHER method under the alias of a serialized method of its base (other return type): the subclass's wins
+   SMB  |-> [Cls("dataclass", << F("a", TInt) >>) EXCEPT !.smethods = << SM("m1", "m1", TInt, DInt(5)) >>],
+   SMS  |-> [Cls("dataclass", << [F("a", TInt) EXCEPT !.inherited = TRUE] >>)
+               EXCEPT !.smethods = << SM("m9", "m1", TStr, DStr("sub")) >>, !.bases = <<"SMB">>],
    \* __post_init__ (adds 100 to field a), defined by PIB and merely inherited by PIC
    PIB  |-> [Cls("dataclass", << F("a", TInt) >>) EXCEPT !.postinc = "a"],
    PIC  |-> [Cls("dataclass", << [F("a", TInt) EXCEPT !.inherited = TRUE], FD("b", TStr, DStr("x")) >>)
@@ -183,6 +187,8 @@ SetTypes  == { TColl(c, t) : c \in {"set", "fset"}, t \in HashableLeaves \cup {T
           \cup { TAnnot(TColl("set", TInt), << <<"max_items", 2>> >>) }
 MapTypes  == { TMap(TAnnot(TStr, << <<"pattern", "pa">> >>), TInt), TMap(TLit(<<DStr("a"), DStr("b")>>), TInt),
                TMap(TEnum("ES"), TInt), TMap(TEnum("ES"), TFloat), TAnnot(TMap(TStr, TInt), << <<"min_props", 1>>, <<"max_props", 1>> >>) }
+\* declared through an ABSTRACT collection (typing.Sequence): built as a list (a tuple is a value of it too), serialized as an array
+SeqTypes  == { TColl("seq", TInt), TColl("seq", TStr), TColl("seq", TObj("P1")), TOpt(TColl("seq", TFloat)) }
 ObjTypes  == { TObj(c) : c \in ObjClasses }
 \* unions with an alternative marked Unsupported: `alts` are the alternatives apischema sees (all the
 \* semantics read them only), `uns` the <<position in the declaration, type>> of the ignored ones,
@@ -233,7 +239,7 @@ OptStructured == { TOpt(TTuple(<<TInt, TStr>>)), TOpt(TColl("list", TInt)), TOpt
                    TOpt(TColl("set", TStr)), TUnion(<<TTuple(<<TBool>>), TStr, TNone>>) }
 
 TypesD0 == Leaves
-TypesD1 == { t \in UNION { Ctor1(t) : t \in Leaves } \cup SetTypes \cup MapTypes \cup ObjTypes \cup UnionTypes
+TypesD1 == { t \in UNION { Ctor1(t) : t \in Leaves } \cup SetTypes \cup SeqTypes \cup MapTypes \cup ObjTypes \cup UnionTypes
                     \cup NestedUnionTypes \cup OptStructured
                     \cup DUnionTypes \cup { TColl("list", t) : t \in DUnionTypes } : WF(t) }
 \* depth 2: constructors over a sample of depth-1 types
